@@ -126,7 +126,9 @@ func (s *Service) submitValidatorRegistrationsForAccounts(ctx context.Context,
 			relayRegistrations,
 		)
 		if err != nil {
-			return err
+			// Continue regardless, so that the other validators are still registered.
+			s.log.Error().Err(err).Str("account", account.Name()).Msg("Failed to generate validator registrations for account")
+			continue
 		}
 		consensusRegistrations = append(consensusRegistrations, accountConsensusRegistrations...)
 	}
